@@ -93,6 +93,7 @@ func main() {
 		// isolated result: fresh runtime, fresh shared values, nothing else running
 		s0, t0 := scen.Shared(sc.Shared)
 		isolated := scen.RunOne(goja.New(), prg, s0, t0)
+		_ = prg
 		outcomes[sc.Name+"="+isolated] = true
 		var results []string
 		mk := func() []func() {
@@ -102,6 +103,8 @@ func main() {
 				fmt.Fprintf(os.Stderr, "SCHEDULE %s %s\n", sc.Name, strings.Trim(strings.ReplaceAll(fmt.Sprint(sched.CurrentPrefix), " ", ","), "[]"))
 			}
 			s, t := scen.Shared(sc.Shared)
+			// a freshly compiled Program per execution: its lazily built parts start unbuilt in every schedule
+			prg := goja.MustCompile("c16.js", sc.Src, false)
 			results = make([]string, *threads)
 			var bodies []func()
 			for i := 0; i < *threads; i++ {
